@@ -160,6 +160,10 @@ def curated_batches():
         [rec(1500, 10), rec(2100, 11), rec(2999, 12), rec(3000, 13), rec(1499, 14), rec(500, 15)],
         [rec(1_700_000_000_999, 0, "fixed-11:30"), rec(1_700_000_001_000, 1, "fixed+2"), rec(1_700_000_000_001, 2)],
         [rec(999, 0), rec(1000, 1), rec(1001, 2), rec(1999, 3), rec(2000, 4)],
+        # a value beyond 1 MiB and 2 MiB (chunked checksumming / copying), and keys / values at the one-byte limit of the
+        # zig-zag length (63 / 64 / 65 bytes)
+        [rec(5000, 0, value=b"\xa7" * (2**21 + 4321)), rec(5001, 1, key=b"k" * 64, value=b"v" * 63), rec(5002, 2, key=b"k" * 63, value=b"v" * 65)],
+        [rec(7000, 0, key=b"\x5a" * (2**20 + 1), value=b"")],
     ]
     return [dict(hdr, records=rs) for rs in sets]
 
@@ -494,6 +498,19 @@ def judge_c18(data, model, label, faults, acc, order):
                              "kio.records.readers:read_batch", dict(case, fault=[kind, where]),
                              "reading fails with an error", what, order + (where if isinstance(where, int) else 0,)))
 
+    if faults == "sparse":
+        # a batch of megabytes: damage at the checksum, at both ends of the checksummed part and around every
+        # mebibyte inside it; truncation just before the end, at every mebibyte and in the middle
+        marks = sorted({CRC_OFF, CRC_OFF + 3, CRC_OFF + 4, CRC_OFF + 5, len(data) - 1, len(data) - 2, len(data) // 2}
+                       | {o for m in range(2**20, len(data), 2**20) for o in (m - 1, m, m + 1, CRC_OFF + 4 + m - 1, CRC_OFF + 4 + m) if o < len(data)})
+        for off in marks:
+            for bit in (0, 7):
+                bad = bytearray(data)
+                bad[off] ^= 1 << bit
+                must_raise(bytes(bad), "bit-flip", off * 8 + bit)
+        for cut in sorted({len(data) - 1, len(data) - 2, len(data) - 1000, len(data) // 2} | set(range(2**20, len(data), 2**20))):
+            must_raise(data[:cut], "truncation", cut)
+        return
     for off in range(CRC_OFF, len(data)):
         for bit in range(8):
             bad = bytearray(data)
@@ -563,7 +580,7 @@ def run_c18(tier):
     run.notes["hand_built_batches_incl_empty"] = extra
     for n, nb in enumerate(curated_batches()):
         data, model = refbatch.encode_new_batch({k: (v if k != "records" else [{kk: vv for kk, vv in r.items() if kk not in ("ts_us", "zone")} for r in v]) for k, v in nb.items()})
-        items.append((f"curated batch {n}", data, model, True))
+        items.append((f"curated batch {n}", data, model, True if len(data) <= 4000 else "sparse"))
     items = list(enumerate(items))
     run.rng.shuffle(items)
     for res in pmap(_task_c18, chunks(items, max(1, len(items) // 64))):
@@ -588,13 +605,20 @@ def replay(prop, path):
     case = from_json(rec["case"])
     acc = Acc()
     if prop == "C17":
-        judge_c17(case["batch"], acc, (0,))
+        cur = case["batch"].get("curated") if isinstance(case["batch"], dict) else None
+        judge_c17(case["batch"], acc, (0,), model=(curated_batches()[cur] if cur is not None else None))
     else:
         data = case["batch_hex"]
         m, _ = refbatch.decode_batch(data)
-        judge_c18(data, m, case.get("source", "replay"), True, acc, (0,))
+        judge_c18(data, m, case.get("source", "replay"), True if len(data) <= 4000 else "sparse", acc, (0,))
     res = acc.result()
-    hit = [v for v in res["violations"] if v["signature"] == rec["signature"]] or res["violations"]
+    # the recorded violation, or any other one that is not a listed known finding (D4b shows on every batch with
+    # sub-second timestamps on the unchanged tree)
+    from ..core import finding_matches, load_known_findings
+
+    known = load_known_findings(prop)
+    hit = [v for v in res["violations"] if v["signature"] == rec["signature"]] or \
+          [v for v in res["violations"] if not any(finding_matches(k, v) for k in known)]
     if hit:
         v = hit[0]
         print(f"VIOLATION property={prop} replay={path}")
